@@ -51,6 +51,8 @@ impl GoAway {
     ///
     /// The connection is expected to continue to run until idle.
     pub fn go_away(&mut self, f: frame::GoAway) {
+        #[cfg(feature = "verif-hooks")]
+        crate::verif::ev("goaway.go_away", || self.verif_args(Some(&f), true));
         if let Some(ref going_away) = self.going_away {
             assert!(
                 f.last_stream_id() <= going_away.last_processed_id,
@@ -69,6 +71,8 @@ impl GoAway {
     }
 
     pub fn go_away_now(&mut self, f: frame::GoAway) {
+        #[cfg(feature = "verif-hooks")]
+        crate::verif::ev("goaway.go_away_now", || self.verif_args(Some(&f), false));
         self.close_now = true;
         if let Some(ref going_away) = self.going_away {
             // Prevent sending the same GOAWAY twice.
@@ -81,6 +85,13 @@ impl GoAway {
     }
 
     pub fn go_away_from_user(&mut self, f: frame::GoAway) {
+        #[cfg(feature = "verif-hooks")]
+        crate::verif::ev("goaway.from_user", || {
+            vec![
+                u32::from(f.last_stream_id()) as i64,
+                u32::from(f.reason()) as i64,
+            ]
+        });
         self.is_user_initiated = true;
         self.go_away_now(f);
     }
@@ -126,13 +137,19 @@ impl GoAway {
         T: AsyncWrite + Unpin,
         B: Buf,
     {
+        #[cfg(feature = "verif-hooks")]
+        crate::verif::ev("goaway.poll", || self.verif_args(None, true));
         if let Some(frame) = self.pending.take() {
             if !dst.poll_ready(cx)?.is_ready() {
+                #[cfg(feature = "verif-hooks")]
+                crate::verif::ev("goaway.blocked", Vec::new);
                 self.pending = Some(frame);
                 return Poll::Pending;
             }
 
             let reason = frame.reason();
+            #[cfg(feature = "verif-hooks")]
+            crate::verif::ev("goaway.emit", || verif_frame(&frame, true));
             dst.buffer(frame.into()).expect("invalid GOAWAY frame");
 
             return Poll::Ready(Some(Ok(reason)));
@@ -150,5 +167,47 @@ impl GoAway {
 impl GoingAway {
     pub(crate) fn reason(&self) -> Reason {
         self.reason
+    }
+}
+
+// ===== verification hooks (feature `verif-hooks`, off by default; add-only) =====
+
+#[cfg(feature = "verif-hooks")]
+fn verif_frame(f: &frame::GoAway, debug: bool) -> Vec<i64> {
+    let mut v = vec![
+        u32::from(f.last_stream_id()) as i64,
+        u32::from(f.reason()) as i64,
+    ];
+    if debug {
+        v.extend(f.debug_data().iter().map(|b| *b as i64));
+    }
+    v
+}
+
+#[cfg(feature = "verif-hooks")]
+impl GoAway {
+    /// `f`: the argument frame (if any); then the state; then the debug data of `f` (or of the
+    /// pending frame when there is no argument).
+    fn verif_args(&self, f: Option<&frame::GoAway>, debug: bool) -> Vec<i64> {
+        let mut v = f.map(|f| verif_frame(f, false)).unwrap_or_default();
+        v.push(self.close_now as i64);
+        match &self.going_away {
+            None => v.extend([-1, -1]),
+            Some(g) => v.extend([
+                u32::from(g.last_processed_id) as i64,
+                u32::from(g.reason) as i64,
+            ]),
+        }
+        v.push(self.is_user_initiated as i64);
+        match &self.pending {
+            None => v.extend([-1, -1]),
+            Some(p) => v.extend(verif_frame(p, false)),
+        }
+        if debug {
+            if let Some(d) = f.or(self.pending.as_ref()) {
+                v.extend(d.debug_data().iter().map(|b| *b as i64));
+            }
+        }
+        v
     }
 }
